@@ -268,7 +268,8 @@ class IpToPytorch(Probe):
     pass
 
 
-UNITS = [TrajectoryOnClone(), PriorTrajectoryOnClone(), McmcPersonalizeOnClone(), TerminateLeavesNothing(), ScipyPerIndividualClones()]
+from contracts.c11 import InitCopies          # BaseAlgorithm.__init__: deep copy of the settings' parameters, settings untouched
+UNITS = [TrajectoryOnClone(), PriorTrajectoryOnClone(), McmcPersonalizeOnClone(), TerminateLeavesNothing(), ScipyPerIndividualClones(), InitCopies()]
 CALLEES = [Probe(STATE + ".clone", "clone", new_clone), Probe(STATE + ".__setitem__", "set"), Probe(STATE + ".__getitem__", "get", read_value),
            Probe(STATE + ".put_individual_latent_variables", "put_individual"), Probe(STATE + ".put_population_latent_variables", "put_population"),
            Probe(MODEL + ".put_data_variables", "put_data"), Probe(MODEL + ".reset_data_variables", "reset_data"),
